@@ -31,7 +31,8 @@ def allRows {n : Nat} (f : Fin n → Option (List Float)) : Option (List (List F
     * `leaf T n d X[n*d] m {f c cuts}*m`               → `L leaf[n*L]` or `error`
     * `infer T n d X[n*d] m {f c cuts}*m L K S[L*K]`   → `proba[n*K]` or `error`
     * `init d nCuts hasMask [len bits…]`               → `k used[k] numleaf` or `error`
-    * `active n d X[n*d] m {f c cuts}*m`               → `cur <k used…|error> fix <k used…|error>` -/
+    * `active n d X[n*d] m {f c cuts}*m`               → `cur <k used…|error> fix <k used…|error>`
+    * `grads T n d X[n*d] m {f c cuts}*m L K S[L*K] ypred[n*K] gradient[n*K]` → `updates[0] | updates[1] | …` or `error` -/
 def step (t : Toks) : String :=
   let (op, t) := t.next
   match op with
@@ -88,6 +89,22 @@ def step (t : Toks) : String :=
     let X : Fin n → Fin d → Float := matOf Xa n d
     let (cl, _) := readCutList t
     s!"cur {optNats (activeCurrent X cl)} fix {optNats (activeFixed X cl)}"
+  | "grads" =>
+    let (T, t) := t.float
+    let (n, t) := t.nat
+    let (d, t) := t.nat
+    let (Xa, t) := t.floats (n * d)
+    let X : Fin n → Fin d → Float := matOf Xa n d
+    let (cl, t) := readCutList t
+    let (L, t) := t.nat
+    let (K, t) := t.nat
+    let (Sa, t) := t.floats (L * K)
+    let S : Fin L → Fin K → Float := matOf Sa L K
+    let (Pa, t) := t.floats (n * K)
+    let (Ga, _) := t.floats (n * K)
+    match computeGrads T X cl S (matOf Pa n K) (matOf Ga n K) with
+    | none => "error"
+    | some ups => " | ".intercalate (ups.map floatsOut)
   | _ => "bad-op"
 
 def main : IO Unit := serve step
